@@ -17,7 +17,7 @@ _chkok_add("C07",
     "no move wins at once it never reports v >= WinThreshold with Stats.Depth <= 1). Proofs/CheckEngineTak.lean: new_child_not_over / noWinInOne_new - on the empty board of tak.New (size 3..8, default piece counts) every move Position.Move accepts "
     "(only the pass and a black flat on one of the size^2 squares pass the opening rule; any coordinates, type code, slide word, hash basis) gives a position that is not over (the 2*199 positions and 12 passes kernel-evaluated: placedNotOver_all). "
     "PosA: the only ply-0 position the bot ever holds is the start position (play-closed, plies >= 0). Non-vacuity: a kernel-evaluated 3x3 run in which the ply-0 thinker reaches waitUndo and the real check engine answers (0, depth 3). "
-    "Lean only, no new op (the real waitUndo / real engine tie is C07check / gluewait of botcompose2). STILL OPEN: checkerSpec_minimax_statement (the depth <= 3 verdicts of the non-Precise check engine equal the rule-book statement; affects waiting time only, not C07).")
+    "Lean only, no new op (the real waitUndo / real engine tie is C07check / gluewait of botcompose2). Towards checkerSpec_minimax_statement: check_winInOne_sound - when the real f.check reports v >= WinThreshold at Stats.Depth <= 1 there IS a move after which GameOver holds with the mover as winner (the -> half of CheckerSpec.winInOne at the level of Position.Move). STILL OPEN: the rest of checkerSpec_minimax_statement (the depth <= 3 verdicts of the non-Precise check engine equal the rule-book statement; affects waiting time only, not C07).")
 
 _chkok_add("C05",
     "DEPTH-1 WITHOUT A TABLE, ANY OPTION SET (work package chkok; Proofs/CheckEngine.lean): Search.pvNode_depth1_le / analyze_noTable / analyze_noWinInOne - an engine without a table, whatever its options (null move, slide reduction, multi-cut, de-duplication, "
